@@ -14,6 +14,7 @@ UNITS = {
     'codec_imm': dict(module='units.codec_imm', rlimit=150, timeout=300),
     'ser': dict(module='units.ser', rlimit=150, timeout=600),
     'event': dict(module='units.event', rlimit=200, timeout=900),
+    'reader': dict(module='units.reader', rlimit=200, timeout=900),
     'hash': dict(module='units.hash', rlimit=50, timeout=300),
     'rollback': dict(module='units.rollback', rlimit=50, timeout=300),
 }
@@ -37,6 +38,18 @@ PROPS = {
         units=[('event', r'(parse_event|frame_close|frame_open|last_id|with_capacity|push_null|Data::len|PortData::len|Frame::len|lemma_|C04)')],
         kani=[],
     ),
+    'C06': dict(
+        units=[('event', r'(__total|port_index|C06)'), ('reader', r'(^read$|^parse_|expect_bytes|port_occupancy|from__partial_game|C06)')],
+        kani=[],
+    ),
+    'C07': dict(
+        units=[('reader', r'(C07|^read$|^parse_header|^parse_payloads|^parse_game_start|^parse_start|^parse_metadata|expect_bytes)'), ('event', r'(C07|parse_event__total)')],
+        kani=[],
+    ),
+    'C12': dict(
+        units=[('reader', r'(C12|^read$|^parse_header|^parse_start|^parse_metadata|from__partial_game)'), ('event', r'(C12|parse_event__total|frame_open)')],
+        kani=[],
+    ),
     'C08': dict(
         units=[('event', r'(parse_event__other|parse_event__splitter|C08)'), ('codec_mut', r'(read_push)')],
         kani=[],
@@ -54,7 +67,7 @@ PROPS = {
         kani=[],
     ),
     'C11': dict(
-        units=[('hash', r'(HashingReader|format_hash|C11|new|into_digest|seek|read)')],
+        units=[('hash', r'(HashingReader|format_hash|C11|::new|into_digest|seek|::read$)'), ('reader', r'(C11|^read$)')],
         kani=[],
     ),
     'C13': dict(
